@@ -25,7 +25,7 @@ RULE = ("runs of N in {2,4,8,16} (thorough also 24 and 40 > core count) concurre
         ">= 2 simultaneously live intermediates (or >= 2 concurrent readers); distinct by (N, mix, input form, barrier, overlap pattern)")
 REQUIRED = ["concurrent runs", "importer processes", "outputs compared with solitary import", "runs with overlap >= 2",
             "temp paths attributed to exactly one pid", "intermediate files created", "intermediate files removed",
-            "reader processes", "barrier arrivals"]
+            "reader processes", "barrier arrivals", "runs with a failing neighbour import"]
 ASSUMPTIONS = [
     "overlap is forced at the one point where gffutils holds an intermediate file (between writing and re-reading it); other "
     "interleavings are left to the scheduler (free-running runs with start offsets are included so the barrier cannot mask a failure)",
@@ -103,7 +103,11 @@ def imports(ctx, case):
         for i in range(N):
             fmt = case["fmts"][i % len(case["fmts"])]
             seed = case["seeds"][i % len(case["seeds"])]
-            texts.append(annotation(seed, fmt, case["size"]))
+            t = annotation(seed, fmt, case["size"])
+            if case.get("flat") and fmt == "gff3":
+                # top-level features only: no second-level relation exists
+                t = "\n".join(l for l in t.splitlines() if l.startswith("##") or "\tgene\t" in l) + "\n"
+            texts.append(t)
         solos = [solitary(ctx, root, t, case["from_string"]) for t in texts]
         try:
             ino = subprocess.Popen(["inotifywait", "-m", "-q", "-e", "create", "-e", "delete", "--format", "%e %f", tmpdir],
@@ -117,12 +121,29 @@ def imports(ctx, case):
             inp = os.path.join(indir, "in%d.txt" % i)
             with open(inp, "w", encoding="utf-8") as fh:
                 fh.write(texts[i])
-            a = {"role": "importer", "input": inp, "out_db": os.path.join(outdir, "out%d.db" % i),
+            if case.get("same_basename"):
+                # separate output files that share a basename (one directory per run)
+                os.makedirs(os.path.join(outdir, "run%d" % i))
+                out_db = os.path.join(outdir, "run%d" % i, "annotation.db")
+            else:
+                out_db = os.path.join(outdir, "out%d.db" % i)
+            a = {"role": "importer", "input": inp, "out_db": out_db,
                  "result": os.path.join(outdir, "res%d.json" % i), "barrier": case["barrier"], "n": N, "barrier_dir": bdir,
                  "from_string": case["from_string"], "offset_ms": rng.randrange(0, 51), "barrier_timeout": 30}
+            if case.get("failer") and case["barrier"]:
+                a["wait_marker"] = os.path.join(bdir, "failer.done")
             af = os.path.join(outdir, "args%d.json" % i)
             json.dump(a, open(af, "w"))
             procs.append((i, a, spawn(af, tmpdir)))
+        failer = None
+        if case.get("failer") and case["barrier"]:
+            finp = os.path.join(indir, "failing.gff")
+            with open(finp, "w") as fh:
+                fh.write("chr1\ts\tgene\t1\t9\t.\t+\t.\tID=dup\nchr1\ts\tgene\t20\t30\t.\t+\t.\tID=ok\nchr1\ts\tgene\t40\t50\t.\t+\t.\tID=dup\n")
+            fa = {"role": "failer", "input": finp, "out_db": os.path.join(outdir, "failing.db"), "result": os.path.join(outdir, "res_failer.json"),
+                  "n": N, "barrier_dir": bdir, "marker": os.path.join(bdir, "failer.done")}
+            json.dump(fa, open(os.path.join(outdir, "args_failer.json"), "w"))
+            failer = (fa, spawn(os.path.join(outdir, "args_failer.json"), tmpdir))
         deadline = time.time() + 180
         for i, a, p in procs:
             try:
@@ -132,6 +153,13 @@ def imports(ctx, case):
                     q.kill()
                 from gvmon.run import Inconclusive
                 raise Inconclusive("importer %d of %d did not finish within the watchdog" % (i, N))
+        if failer is not None:
+            failer[1].wait(timeout=120)
+            fres = json.load(open(failer[0]["result"])) if os.path.exists(failer[0]["result"]) else {"error": None}
+            if not fres.get("error"):
+                ctx.note("the deliberately failing neighbour import did not fail")
+            else:
+                ctx.mon("runs with a failing neighbour import")
         ctx.mon("concurrent runs")
         ctx.mon("importer processes", N)
         results = []
@@ -324,6 +352,25 @@ def run(ctx):
                                  sample={"n": N, "mix": mix, "from_string": from_string, "barrier": barrier, "max_overlap": ov,
                                          "live_intermediates_seen_by_each_importer": pat},
                                  cls="N=%d barrier=%s" % (N, barrier))
+    # further input/placement classes: same output basename in different directories, flat inputs (no second-level
+    # relations), a failing import next to healthy ones
+    for rep in range(reps):
+        for N in ([2, 4, 8] if ctx.tier == "quick" else [2, 4, 8, 16, 24]):
+            for variant in ("same_basename", "flat", "failer"):
+                for mix in ("gff3+gtf", "different"):
+                    i += 1
+                    if not ctx.mine(i):
+                        continue
+                    if ctx.tier == "quick" and mix == "different" and N != 4:
+                        continue
+                    fmts = {"different": ["gff3"], "gff3+gtf": ["gff3", "gtf"]}[mix]
+                    case = {"kind": "imports", "n": N, "fmts": fmts, "seeds": [rng.randrange(10 ** 6) for _ in range(N)], "size": 3,
+                            "from_string": False, "barrier": True, variant: True}
+                    execute(ctx, case)
+                    ov = case.pop("_overlap", 0)
+                    pat = case.pop("_pattern", [])
+                    ctx.case((N, mix, variant, pat), ov >= 2, sample={"n": N, "mix": mix, "variant": variant, "max_overlap": ov},
+                             cls="variant=%s" % variant)
     for R in ([2, 8, 32] if ctx.tier == "quick" else [2, 8, 32, 48]):
         for fmt in ("gff3", "gtf"):
             i += 1
